@@ -171,7 +171,47 @@ def run_posterior(case):
     return res
 
 
-KINDS = {"block": run_block, "one": run_one, "posterior": run_posterior}
+def run_ladder(case):
+    """Size ladder: one structured history per rung, N*T from 2^10 up to the stated bound (size-triggered code paths such as
+    blocked evaluation are invisible to small-scope enumeration), against the float reference evaluated block-free."""
+    res = Res()
+    T, n_t = case["T"], case["n_t"]
+    sizes = [n_t + (t % 3) for t in range(T)]           # unequal batch sizes
+    betas = [min(1.0, (t / max(1, T - 1)) ** 2) for t in range(T)]
+    logzs = [-0.7 * b * 5.0 - 0.1 * t for t, b in enumerate(betas)]
+    N = sum(sizes)
+    g = np.arange(N, dtype=float)
+    logl = -6.0 * ((g * 0.6180339887) % 1.0) ** 2 - 0.001 * (g % 7)
+    from tempest.state_manager import StateManager
+    st = StateManager(1)
+    o = 0
+    batches = []
+    for t in range(T):
+        b = logl[o:o + sizes[t]]
+        batches.append(b)
+        st.update_current({"logl": b, "beta": betas[t], "logz": logzs[t]})
+        st.commit_current_to_history()
+        o += sizes[t]
+    for beta in (0.3, 1.0):
+        lw, lz = st.compute_logw_and_logz(beta, normalize=False)
+        lwn, _ = st.compute_logw_and_logz(beta)
+        res.evals += 1
+        ref_lw, ref_lz = mis.logw_float(batches, betas, logzs, beta)
+        cc = dict(case, beta=beta)
+        err = float(np.max(np.abs(np.asarray(lw) - ref_lw)))
+        if err > 1e-9 or abs(lz - ref_lz) > 1e-9:
+            res.violate("ladder:formula", f"history with T={T}, N={N} (N*T={N * T:.3g}): log-weights differ from the mixture formula by {err:.3g}, logZ by {abs(lz - ref_lz):.3g}", cc)
+        wn = np.exp(np.asarray(lwn))
+        wr = mis.weights_float(ref_lw)
+        if abs(wn.sum() - 1.0) > 1e-9 or np.max(np.abs(wn - wr)) > 1e-12 + 1e-9 * wr.max():
+            res.violate("ladder:weights", f"history with T={T}, N={N}: normalised weights differ from the reference by {np.max(np.abs(wn - wr)):.3g}", cc)
+        res.outcome(("ladder", T, n_t, beta), nontrivial=True)
+    res.states += 1
+    res.sample({"ladder_rung": {"T": T, "N": N, "N*T": N * T}}, cap=1)
+    return res
+
+
+KINDS = {"ladder": run_ladder, "block": run_block, "one": run_one, "posterior": run_posterior}
 
 
 def plan(ctx):
@@ -204,3 +244,6 @@ def plan(ctx):
             T = len(sizes)
             post.append({"kind": "posterior", "sizes": sizes, "betas": [0.0, 0.4, 1.0][:T] if T == 3 else [0.0, 1.0], "logzs": [0.0, -1.5, -2.5][:T], "scale": scale})
     ctx.explore("posterior-accessor", post)
+    rungs = [(4, 64), (16, 256), (64, 1024), (160, 820)] + ([(160, 1700), (400, 700)] if th else [])
+    ctx.bounds.update({"size_ladder_NxT": [T * (T * n + T) for T, n in rungs]})
+    ctx.explore("size-ladder", [{"kind": "ladder", "T": T, "n_t": n} for T, n in rungs], parallel=False)
